@@ -329,6 +329,8 @@ func init() {
 	vrt.Register("C16_generated_functions", GeneratedFunctions)
 	vrt.Register("C16_returned_collections", ReturnedCollections)
 	vrt.Register("C16_names_rebound", NamesRebound)
+	vrt.Register("C16_return_inside_loops", ReturnInsideLoops)
+	vrt.Register("C16_results_chained", ResultsChained)
 }
 
 func GeneratedFunctions() {
@@ -451,5 +453,99 @@ func NamesRebound() {
 	vrt.Note("got", got)
 	vrt.Assert(err == nil, "functions passed on, stored and rebound render")
 	vrt.Assert(got == c.want, "a call runs the function its name is bound to at that moment")
+	vrt.Cover("done")
+}
+
+// ---- the first return reached is the value of the call also when it is reached
+// inside a loop of the body: the rest of the loop and what follows it are skipped
+func ReturnInsideLoops() {
+	a, b, c, y := vrt.Int(), vrt.Int(), vrt.Int(), vrt.Int()
+	ctx := plush.NewContext()
+	ctx.Set("xs", []int{a, b, c})
+	ctx.Set("m", map[string]int{"k": a})
+	ctx.Set("y", y)
+	ctx.Set("a", a)
+	var seen []int
+	ctx.Set("note", func(i int) int { seen = append(seen, i); return i })
+	first := func(d int) int { // the first element equal to y, else d
+		for _, x := range []int{a, b, c} {
+			if x == y {
+				return x
+			}
+		}
+		return d
+	}
+	var in string
+	var want int
+	visits := -1
+	switch vrt.Choice(9) {
+	case 0:
+		in, want = "<% let f = fn(l, t) { for (x) in l { if (x == t) { return x } } return 7 } %>[<%= f(xs, y) %>]", first(7)
+	case 1:
+		in, want = "<% let f = fn(l) { for (x) in l { return x } return 7 } %>[<%= f(xs) %>]", a
+	case 2:
+		in, want = "<% let f = fn(d) { for (k, v) in d { return v } return 7 } %>[<%= f(m) %>]", a
+	case 3:
+		vrt.Assume(a < 1<<62) // a + 2 does not wrap: the range is not empty
+		in, want = "<% let f = fn() { for (v) in range(a, a + 2) { return v } return 7 } %>[<%= f() %>]", a
+	case 4:
+		in, want = "<% let f = fn(l, t) { for (x) in l { for (z) in l { if (z == t) { return z } } } return 7 } %>[<%= f(xs, y) %>]", first(7)
+	case 5:
+		in, want = "<% let f = fn(l) { for (x) in l { note(x) \n return x } note(7) \n return 7 } %>[<%= f(xs) %>]", a
+		visits = 1
+	case 6: // the value can be tested and computed with
+		in, want = "<% let f = fn(l) { for (x) in l { return x } return 7 } %>[<%= f(xs) + 1 %>]", a+1
+	case 7: // a loop that returns nothing leaves the code after it in charge
+		in, want = "<% let f = fn(l, t) { for (x) in l { if (x == t) { let w = 1 } } return 7 } %>[<%= f(xs, y) %>]", 7
+	default: // the caller's own loop goes on
+		in = "<% let f = fn(l) { for (x) in l { return x } return 7 } %>[<%= for (i) in [1, 2] { %><%= f(xs) %>;<% } %>]"
+		out, err := plush.Render(in, ctx)
+		vrt.Assert(err == nil, "a function with a return inside a loop renders")
+		vrt.Assert(out == "["+strconv.Itoa(a)+";"+strconv.Itoa(a)+";]", "a return inside a loop of the callee ends the call, not the caller's loop")
+		vrt.Cover("done")
+		return
+	}
+	vrt.Note("input", in)
+	out, err := plush.Render(in, ctx)
+	vrt.Assert(err == nil, "a function with a return inside a loop renders")
+	vrt.Assert(out == "["+strconv.Itoa(want)+"]", "the first return reached is the value of the call, also inside a loop")
+	if visits >= 0 {
+		vrt.Assert(len(seen) == visits, "everything after the first return reached is skipped")
+	}
+	vrt.Cover("done")
+}
+
+// ---- the value of a call can be passed on like any other value: a path that
+// hangs off the call
+type userR struct {
+	Name string
+	Kids []userR
+}
+
+func (u userR) Hi() string { return "hi " + u.Name }
+func (u userR) Kid() userR { return u.Kids[0] }
+
+func ResultsChained() {
+	n, k := vrt.BytesIn(2, "ab<"), vrt.BytesIn(2, "cd&")
+	u := userR{Name: n, Kids: []userR{{Name: k}}}
+	ctx := plush.NewContext()
+	ctx.Set("user", u)
+	cases := []struct{ in, want string }{
+		{"f().Name", n},
+		{"f().Hi()", "hi " + n},
+		{"f().Kids[0].Name", k},
+		{"f().Kid().Name", k},
+		{"f().Kid().Hi()", "hi " + k},
+		{"g(user).Name", n},
+		{"g(user.Kids[0]).Hi()", "hi " + k},
+	}
+	c := cases[vrt.Choice(len(cases))]
+	in := "<% let f = fn() { return user } %><% let g = fn(p) { return p } %>[<%= " + c.in + " %>]"
+	ref := "[<%= w %>]"
+	ctx.Set("w", c.want)
+	got, err := plush.Render(in, ctx)
+	want, _ := plush.Render(ref, ctx)
+	vrt.Assert(err == nil, "a path hanging off the call of a template function renders: "+c.in)
+	vrt.Assert(got == want, "the value of the call is passed on to the rest of the path: "+c.in)
 	vrt.Cover("done")
 }
